@@ -14,6 +14,13 @@ Theorem C19_snippet_names_only :
   forall s : string, parse_directives s = filter (fun w => negb (w =? "")%string) (directive_names s).
 Proof. exact parse_directives_exact. Qed.
 
+(* The same promise read without the lexer: write any directives down with every argument value — arbitrary bytes —
+   in double quotes, a backslash before each double quote and backslash; exactly the names are returned. *)
+Theorem C19_rendered_arguments_never_reported :
+  forall ds : list (string * list string),
+    forallb (fun d => bare_name (fst d)) ds = true -> parse_directives (render ds) = map fst ds.
+Proof. exact render_names. Qed.
+
 (* Every string of SnippetsFiltersDirectives is <name>-<context> where <name> is a directive name of a snippet that
    a SnippetsFilter of the graph has for that context; the two reported lists have the same length. *)
 Theorem C19_report_names_only :
